@@ -111,6 +111,44 @@ def check_group(arg):
         bad("block", f"after reordering the top-level items a block was split or changed: {got_blocks}")
     if acl.tcam_count() != tcam0:
         bad("tcam-perm", "tcam_count changed by reordering")
+    # the same through the library's own reordering operations (a second, freshly grouped ACL)
+    def units(a):
+        return [[strip(x.line) for x in o.items] if isinstance(o, cisco_acl.AceGroup) else [strip(o.line)] for o in a.items]
+    acl2, _ = build(kinds)
+    acl2.group("=")
+    acl2.resequence(10, 10)
+    u0 = units(acl2)
+    headless = bool(u0) and len(u0) > 1 and not u0[0][0].startswith("remark =")
+    try:
+        acl2.reverse()
+        if units(acl2) != u0[::-1]:
+            bad("block:reverse()", f"after reverse() the units are {units(acl2)}, expected {u0[::-1]}")
+        acl2.reverse()
+        if units(acl2) != u0:
+            bad("block:reverse()-twice", f"reverse() twice is not the identity: {units(acl2)} vs {u0}")
+        acl2.reverse()
+        acl2.sort()
+        if units(acl2) != u0:
+            bad("sort:after-reverse()", f"resequence(); reverse(); sort() does not restore the numbered order: {units(acl2)} vs {u0}")
+        acl2.sort(reverse=True)
+        if units(acl2) != u0[::-1]:
+            bad("block:sort(reverse=True)", f"after sort(reverse=True) the units are {units(acl2)}, expected {u0[::-1]}")
+        acl2.sort()
+        its = list(acl2.items)
+        rnd2 = random.Random(seed + 1)
+        perm2 = list(range(len(its)))
+        rnd2.shuffle(perm2)
+        acl2.items = [its[i] for i in perm2]
+        if units(acl2) != [u0[i] for i in perm2]:
+            moved_headless = headless and perm2[0] != 0
+            bad("block:items-assigned" + (":heading-less-first-block-moved" if moved_headless else ""),
+                f"after `acl.items = <its own top-level items in the order {perm2}>` the units are {units(acl2)}, expected {[u0[i] for i in perm2]}")
+        else:
+            acl2.sort()
+            if units(acl2) != u0:
+                bad("sort:after-items-assigned", f"sort() after assigning the permuted items does not restore the numbered order: {units(acl2)} vs {u0}")
+    except Exception as ex:
+        bad("reorder-error", f"a reordering operation raised {type(ex).__name__}: {ex}")
     # resequence, shuffle, sort restores the numbered order
     for start, step in ((10, 10), (5, 5), (95, 10), (1, 3)):     # numbers with different digit counts as well
         acl.resequence(start, step)
